@@ -370,3 +370,29 @@ def minimal_src(date="2024-01-01T00:00:00") -> str:
         containers.SequenceContainer("ONE", [P[n] for n in {list(types)!r}], base_container_name="CCSDSPacket",
                                      restriction_criteria=[{M}.Comparison("1", "PKT_APID")]),
       ], ns={{"xtce": "{URI}"}}, xtce_ns_prefix="xtce", date={date!r}))({{p.name: p for p in [{", ".join(params)}]}})"""
+
+
+def compare_ignoring_ns(h: Harness, a, b) -> Optional[str]:
+    """Definitions loaded from different namespace renderings legitimately differ in the recorded namespace map,
+    prefix and schema URI; everything else must agree."""
+    saved = []
+    for d in (a, b):
+        for k in ("ns", "xtce_ns_prefix", "xtce_schema_uri"):
+            saved.append((d, k, d.attrs.get(k)))
+            d.attrs[k] = None
+    try:
+        return compare(h, a, b)
+    finally:
+        for d, k, v in saved:
+            d.attrs[k] = v
+
+
+def tiny_src(date="2024-01-01T00:00:00") -> str:
+    """The smallest definition with a nested lookup in every loader stage (type, parameter, container, base container)."""
+    return f"""(lambda P: XtcePacketDefinition([
+        containers.SequenceContainer("CCSDSPacket", [P["A"]]),
+        containers.SequenceContainer("ONE", [P["B"]], base_container_name="CCSDSPacket",
+                                     restriction_criteria=[{M}.Comparison("1", "A")]),
+      ], ns={{"xtce": "{URI}"}}, xtce_ns_prefix="xtce", date={date!r}))({{p.name: p for p in [
+        parameters.Parameter("A", parameter_types.IntegerParameterType("A_T", {_int(8)})),
+        parameters.Parameter("B", parameter_types.IntegerParameterType("B_T", {_int(8, default_calibrator=f"{C}.PolynomialCalibrator([{C}.PolynomialCoefficient(1.5, 1)])")}))]}})"""
